@@ -4,8 +4,8 @@ import enum
 import collections.abc
 import typing as t
 
-from .. import env, genval, gentypes, drive, deepeq
-from ..common import observe, build_type
+from .. import env, genval, gentypes, drive, deepeq, model
+from ..common import observe, build_type, plain_data
 from ..ctx import short
 from ..deepeq import deep_typed_eq
 from ..locate import locate, contains
@@ -192,6 +192,14 @@ def classify(ty, x):
                 if observe(env.from_data, d.val, A).kind == 'value':
                     j_parse = j
                     break
+            if j_parse is not None and j_true is not None and j_parse < j_true and len(members) == len(ty.a):
+                # ... and only when the earlier member is RIGHT to read that data: if the reference model says it must refuse it,
+                # this is not the inherent ambiguity but a member accepting too much
+                try:
+                    if model.spec(ty.a[j_parse], plain_data(d.val)).v == model.REJ:
+                        return None
+                except Exception:
+                    pass
             if j_parse is not None and j_true is not None and j_parse < j_true:
                 # only when the union wrote exactly what x's own member writes: the ambiguity is then inherent in the data
                 own = observe(env.into_data, x, members[j_true])
